@@ -387,6 +387,18 @@ func checkCombo(t vkit.TB, c combo) bool {
 		vkit.Violate(t, prop, "C12/load-with-other-wrapper-succeeded/"+c.Type, "a sealed record loaded with a different wrapper", c)
 		return false
 	}
+	// the wrapper may fail in the middle of a Store (its k-th Encrypt call): the Store
+	// then fails, or - if it reports success - has sealed everything all the same
+	for k := 1; k <= 4; k++ {
+		fresh, _, _, fsecrets := buildRecord(c)
+		flaky := &vkit.FlakyWrapper{Wrapper: wa, FailAt: k}
+		st.Reset()
+		serr := fresh(st, nodeenrollment.WithStorageWrapper(flaky))
+		rec.Case("wrapper-fails-mid-store/"+c.Type, fmt.Sprintf("%+v|%d", c, k), true, func() any { return map[string]any{"fields": c, "failing_encrypt_call": k} })
+		if !scan(t, st.Log(), fsecrets, map[string]any{"fields": c, "wrapper_fails_on_encrypt_call": k, "store_returned_error": serr != nil}) {
+			return false
+		}
+	}
 	// second generation under the same id: the record that was handed to Store, or
 	// the record Load returned, gets fresh sensitive values and is stored again
 	for _, src := range []struct {
